@@ -258,7 +258,7 @@ impl Type {
     }
 
     fn check_nesting_depth(t: &Type, struct_depth: u8, array_depth: u8) -> Result<()> {
-        if struct_depth >= 32 || array_depth >= 32 {
+        if struct_depth > 32 || array_depth > 32 {
             Err(Error::NestingTooDeep)
         } else {
             match t {
@@ -324,31 +324,18 @@ impl Type {
                 }
                 Token::Array => {
                     if let Some(Ok(next_token)) = tokens.peek() {
-                        let next_is_dict = *next_token == Token::DictEntryStart;
+                        if *next_token == Token::DictEntryStart {
+                            // dict entries are only allowed as the element type of an array
+                            tokens.next();
+                            return Self::parse_dict_entry(tokens).map(Some);
+                        }
                         let elem_type = Self::parse_next_type(tokens, None)?;
                         match elem_type {
-                            Some(Type::Container(Container::Dict(_, _))) if next_is_dict => {
-                                Ok(elem_type)
-                            }
                             Some(elem_type) => {
                                 Ok(Some(Type::Container(Container::Array(Box::new(elem_type)))))
                             }
                             None => Err(Error::InvalidSignature),
                         }
-                    } else {
-                        Err(Error::InvalidSignature)
-                    }
-                }
-                Token::DictEntryStart => {
-                    let key_type = Self::parse_next_base(tokens)?;
-                    if let Some(value_type) = Self::parse_next_type(tokens, None)? {
-                        if tokens.next() != Some(Ok(Token::DictEntryEnd)) {
-                            return Err(Error::InvalidSignature);
-                        }
-                        Ok(Some(Type::Container(Container::Dict(
-                            key_type,
-                            Box::new(value_type),
-                        ))))
                     } else {
                         Err(Error::InvalidSignature)
                     }
@@ -379,11 +366,30 @@ impl Type {
         }
     }
 
+    /// Parses the rest of a dict entry. The opening '{' must already be consumed
+    fn parse_dict_entry<I: Iterator<Item = Result<Token>>>(
+        tokens: &mut Peekable<I>,
+    ) -> Result<Type> {
+        let key_type = Self::parse_next_base(tokens)?;
+        if let Some(value_type) = Self::parse_next_type(tokens, None)? {
+            if tokens.next() != Some(Ok(Token::DictEntryEnd)) {
+                return Err(Error::InvalidSignature);
+            }
+            Ok(Type::Container(Container::Dict(
+                key_type,
+                Box::new(value_type),
+            )))
+        } else {
+            Err(Error::InvalidSignature)
+        }
+    }
+
     fn parse_next_base<I: Iterator<Item = Result<Token>>>(tokens: &mut I) -> Result<Base> {
         if let Some(token) = tokens.next() {
             let token = token?;
             match token {
                 Token::Byte => Ok(Base::Byte),
+                Token::Boolean => Ok(Base::Boolean),
                 Token::Int16 => Ok(Base::Int16),
                 Token::Uint16 => Ok(Base::Uint16),
                 Token::Int32 => Ok(Base::Int32),
